@@ -6,8 +6,8 @@ from ..core import *
 from ..ops import *
 
 IMPORTS = ('From OFV Require Import Base.Cplx Sem.PauliSem Model.SymbolicOp Model.QubitOp Model.LadderOp Model.JordanWigner '
-           'Model.Program Check.DictEquiv Check.OpEquiv.\n')
-NEEDS = ['Thm/C04/JWSound', 'Check/OpEquiv']
+           'Model.MajoranaOp Model.Program Check.DictEquiv Check.OpEquiv.\n')
+NEEDS = ['Thm/C04/JWSound', 'Thm/C04/MajoranaSound', 'Check/OpEquiv']
 
 def herm_conj_term(t): return tuple((i, 1 - a) for i, a in reversed(t))
 
@@ -62,6 +62,35 @@ def run(ctx):
             {'call': 'jordan_wigner(FermionOperator)', 'terms': {repr(t): repr(c) for t, c in fop.terms.items()}},
             key=repr(sorted(map(repr, fop.terms.items()))) if len(fop.terms) > 1 else None)
         if i < 2: ctx.sample({'part': 'jw_fermion', 'input': str(fop), 'output_terms': len(out.terms)})
+    # A2. MajoranaOperator path: implementation vs the model mjw0 (theorem C04_majorana_jw_sound) and vs the ladder expansion
+    #     gamma_2q = a_q + a+_q, gamma_2q+1 = i (a+_q - a_q) built here, through the verified checker; multiplicativity
+    from .c08 import coq_mop
+    def maj_expand(terms):
+        d = {}
+        for t, c in terms.items():
+            parts = [((), complex(c))]
+            for k in t:
+                q, b = divmod(k, 2)
+                fac = [(((q, 1),), 1j), (((q, 0),), -1j)] if b else [(((q, 1),), 1), (((q, 0),), 1)]
+                parts = [(w + w2, c1 * c2) for w, c1 in parts for w2, c2 in fac]
+            for w, c1 in parts: d[w] = d.get(w, 0) + c1
+        return {w: c for w, c in d.items() if c != 0}
+    def rand_maj(nm):
+        mo = of.MajoranaOperator()
+        for _ in range(rng.randint(0, 4)):
+            mo += of.MajoranaOperator(tuple(rng.randrange(2 * nm) for _ in range(rng.randint(0, 4))), dyc(rng))
+        return mo
+    for i in range(N(120, 1000)):
+        nm = rng.choice([1, 2, 3, 4, 6, 9])
+        mo = rand_maj(nm); mo2 = rand_maj(nm)
+        rp = {'call': 'jordan_wigner(MajoranaOperator)', 'terms': {repr(t): repr(c) for t, c in mo.terms.items()}, 'second': {repr(t): repr(c) for t, c in mo2.terms.items()}}
+        try: out = of.jordan_wigner(mo); out2 = of.jordan_wigner(mo2); outp = of.jordan_wigner(mo * mo2)
+        except Exception as e:
+            ctx.count('jw_majorana', 1); ctx.violation('C04 jordan_wigner(MajoranaOperator) raised %s: %s' % (type(e).__name__, e), rp); continue
+        if not all(exact_terms_ok(x.terms) for x in (out, out2, outp, mo, mo2)): ctx.stat('jw_majorana', 'discarded_inexact'); continue
+        add('jw_majorana', '(pauli_equiv (mjw0 %s) %s && fermi_pauli_equiv %s %s && pauli_equiv (qmul %s %s) %s)' %
+            (coq_mop(mo.terms), coq_qop(out), coq_fop_terms(maj_expand(mo.terms)), coq_qop(out), coq_qop(out), coq_qop(out2), coq_qop(outp)),
+            rp, key=repr(sorted(map(repr, mo.terms.items()))) if len(mo.terms) > 0 else None)
     # B. Hermitian InteractionOperator fast path vs the spec operator (verified checker)
     for i in range(N(120, 1200)):
         n = rng.choice([2, 3, 4, 4, 5] if not ctx.quick else [2, 3, 4, 4])
